@@ -34,6 +34,15 @@ DESIGNED = [
     {"hermitian": True, "sizes": [3, 2], "masks": {0: [(0, 1)], 1: []}, "order": [1, 0]},             # an empty mask next to a partial one
     {"hermitian": True, "sizes": [2, 2], "E": [0, 0, 2, 5], "fd_tuple": [0]},                        # an identically zero H_0 block, fully diagonalised
     {"hermitian": False, "sizes": [2, 1, 2], "E": [0, 0, 3, 7, 7], "fd_tuple": [0, 2]},              # a zero block and a degenerate one, both fully diagonalised
+    {"hermitian": True, "sizes": [2, 2], "E": [1, 3, 0, 0], "variant": {"carrier": "dense", "designation": "indices", "container": "dict", "int_h0": False, "scale_exp": 0}},                                         # an identically zero H_0 block that is not the first one, equal block sizes
+    {"hermitian": False, "sizes": [2, 2], "E": [2, 5, 0, 0], "fd_tuple": [0], "variant": {"carrier": "dense", "designation": "indices", "container": "dict", "int_h0": False, "scale_exp": 0}},                       # the same in the non-Hermitian algorithm, the other block fully diagonalised
+    {"hermitian": True, "sizes": [2, 2, 2], "E": [1, 4, 0, 0, 9, 6], "fd_tuple": [0, 2], "variant": {"carrier": "dense", "designation": "indices", "container": "dict", "int_h0": False, "scale_exp": 0}},            # a zero block in the middle
+    {"hermitian": True, "sizes": [2, 3], "E": [0, 2, 5, 9, 11], "integers": True,                    # integer data throughout (H_0 and every perturbation), all-sparse carriers
+     "variant": {"carrier": "sparse", "designation": "indices", "container": "dict", "int_h0": True, "int_all": True, "scale_exp": 0}},
+    {"hermitian": True, "sizes": [3, 2], "E": [1, 1, 4, 7, 7], "fd_tuple": [0, 1],                   # degenerate levels that are degenerate only up to rounding: a rotated dense H_0
+     "variant": {"carrier": "dense", "designation": "rotated", "container": "dict", "int_h0": False, "level_rotation": True, "np_seed": 12345, "scale_exp": 0}},
+    {"hermitian": True, "sizes": [4], "E": [2, 2, 5, 5],                                              # the same for a single block (fully diagonalised by default)
+     "variant": {"carrier": "dense", "designation": "rotated", "container": "dict", "int_h0": False, "level_rotation": True, "np_seed": 54321, "scale_exp": 0}},
 ]
 
 def gen_problem(rnd, hermitian=True, force=None):
@@ -59,6 +68,7 @@ def gen_problem(rnd, hermitian=True, force=None):
     E = [(e, Fraction(rnd.choice([0, 0, 1, -1, 2]), rnd.choice([1, 2])) if cE else Fraction(0)) for e in E]
     cplx = rnd.random() < 0.5
     def entry():
+        if force and force.get("integers"): return (Fraction(rnd.randint(-3, 3)), Fraction(0))
         if rnd.random() < (0.3 if not force else 0.1): return (Fraction(0), Fraction(0))
         re = Fraction(rnd.randint(-3, 3), rnd.choice([1, 1, 2, 3]))
         im = Fraction(rnd.randint(-3, 3), rnd.choice([1, 2])) if cplx else Fraction(0)
@@ -81,6 +91,8 @@ def gen_problem(rnd, hermitian=True, force=None):
         bl = [b for b in range(N) if rnd.random() < 0.6]; fd = {"kind": "tuple", "blocks": bl}; fd_py = tuple(bl)
     elif mode == "designed" and "fd_tuple" in force:
         fd = {"kind": "tuple", "blocks": list(force["fd_tuple"])}; fd_py = tuple(force["fd_tuple"])
+    elif mode == "designed" and "masks" not in force:
+        pass                                                  # no fully_diagonalize
     elif mode == "designed":
         masks = []; fd_py = {}
         for b in force["order"]:
@@ -244,6 +256,7 @@ def run_impl_numeric(P, requests, v, rnd):
     for n, m in P["terms"].items():
         a = to_float(m); mats[n] = a if cplx else a.real.copy()
     if v["int_h0"]: mats[zero_n] = np.rint(mats[zero_n].real).astype(int)
+    if v.get("int_all"): mats = {n: np.rint(m.real).astype(int) for n, m in mats.items()}
     unit = 2.0 ** v.get("scale_exp", 0)
     if unit != 1.0: mats = {n: m * unit for n, m in mats.items()}
     snapshot = None
@@ -502,6 +515,9 @@ def main(seed, ncases, driver, out, mode="all"):
         # floating-point carriers against the exact model value (rounding proportional to the size of the terms)
         if not any(f["case"] == c for f in failures):
             variant = choose_variant(P, rnd); carrier = variant
+            if force and force.get("variant"):
+                for kk in ("interleave", "sparse_vectors", "level_rotation", "np_seed", "int_all"): variant.pop(kk, None)
+                variant.update(force["variant"])
             if not hermitian and c % 8 in (0, 1):      # pre-separated sparse blocks in the non-Hermitian algorithm: the values reach the solver as the caller's own objects
                 variant.update(designation="blocked", carrier="sparse", container="dict", int_h0=False, scale_exp=0); variant.pop("interleave", None); variant.pop("sparse_vectors", None)
             for kk in ("carrier", "designation", "container"): num_stats[kk + "=" + variant[kk]] = num_stats.get(kk + "=" + variant[kk], 0) + 1
